@@ -41,6 +41,16 @@ TIER_PRODUCERS = [
     ("crop-lax", ("C06",), lambda t, o: t.crop(0.75, 2.25, "lax", False)),
     ("crop-lax-rebased", ("C06",), lambda t, o: t.crop(0.75, 2.25, "lax", True)),
     ("crop-empty", ("C06",), lambda t, o: t.crop(1.6, 1.9, "strict", True)),
+    ("crop-whole-span", ("C06",), lambda t, o: t.crop(t.minTimestamp, t.maxTimestamp, "strict", False)),
+    ("crop-whole-span-lax", ("C06",), lambda t, o: t.crop(t.minTimestamp, t.maxTimestamp, "lax", False)),
+    ("erase-in-a-gap-keep", ("C07",), lambda t, o: t.eraseRegion(1.6, 1.9, "truncate", False)),
+    ("erase-at-the-end-keep", ("C07",), lambda t, o: t.eraseRegion(t.maxTimestamp - 0.125, t.maxTimestamp, "categorical", False)),
+    ("space-at-the-end", ("C08",), lambda t, o: t.insertSpace(t.maxTimestamp, 0.5, "stretch")),
+    ("shift-by-zero", ("C09",), lambda t, o: t.editTimestamps(0.0, "silence")),
+    ("append-empty", ("C09",), lambda t, o: t.appendTier(t.new(entries=[]))),
+    ("union-with-empty", ("C10",), lambda t, o: t.union(t.new(entries=[]))),
+    ("difference-with-empty", ("C10",), lambda t, o: t.difference(t.new(entries=[]))),
+    ("dejitter-nothing-near", ("C14",), lambda t, o: t.dejitter(o[0], 0.0)),
     ("erase-shrink", ("C07",), lambda t, o: t.eraseRegion(0.5, 1.0, "truncate", True)),
     ("erase-keep", ("C07",), lambda t, o: t.eraseRegion(0.75, 2.25, "truncate", False)),
     ("erase-categorical", ("C07",), lambda t, o: t.eraseRegion(0.75, 2.25, "categorical", True)),
@@ -64,7 +74,7 @@ TIER_PRODUCERS = [
                                                                    "replace", "silence"), t)[1]),
     ("delete-in-place", ("C11",), lambda t, o: (t.deleteEntry(t.entries[0]), t)[1]),
 ]
-ONLY_INTERVAL = {"difference", "intersection", "mergeLabels", "morph"}
+ONLY_INTERVAL = {"difference", "intersection", "mergeLabels", "morph", "difference-with-empty"}
 
 
 def _norm(x):
@@ -134,18 +144,32 @@ def _check_tier(case):
     def others():
         return [mk(s) for s in OTHERS[state[0]]] + [mk(live.LATE[state[0]])]
     res = {}
+    viols = []
     for which in ("result", "rebuilt"):
         t, o = mk(state), others()
         st, r, _ = call(f, t, o)
         if st == "exc":
             return 1, "raised", (state[0], name, "raised"), []
+        sources = [t] + o
+        before = [canon(x) for x in sources]
+        inplace = name.endswith("-in-place")
         if which == "rebuilt":
             try:
                 r = mk(canon(r))
             except Exception:  # not constructible from its own fields: reported by C05
                 return 1, "unconstructible", None, []
+        elif not inplace and any(r is x for x in sources):
+            viols.append(Viol("result-is-an-operand", f"{name} on {state} returned one of its operands, not a new tier"))
         res[which] = _tier_consumers(r, others())
-    viols = []
+        if which == "result" and not inplace and not viols:
+            after = [canon(x) for x in sources]
+            if after != before:
+                k = [i for i in range(len(before)) if before[i] != after[i]][0]
+                viols.append(Viol("result-entangled-with-source",
+                                  f"{name} on {state}: using and then editing the RETURNED tier changed {'the receiver' if k == 0 else 'operand %d' % k}: "
+                                  f"{before[k]} -> {after[k]}"))
+    if viols:
+        return 2, "!", None, viols
     a, b = res["result"], res["rebuilt"]
     for k in a:
         if a[k] != b.get(k):
@@ -190,6 +214,13 @@ TG_PRODUCERS = [
     ("crop-truncated-rebased", ("C06",), lambda tg: tg.crop(0.75, 3.25, "truncated", True)),
     ("crop-lax", ("C06",), lambda tg: tg.crop(0.75, 2.25, "lax", False)),
     ("crop-strict-rebased", ("C06",), lambda tg: tg.crop(0.5, 3.0, "strict", True)),
+    ("crop-whole-span", ("C06",), lambda tg: tg.crop(0.0, 4.0, "strict", False)),
+    ("crop-whole-span-lax", ("C06",), lambda tg: tg.crop(0.0, 4.0, "lax", False)),
+    ("crop-wider-than-span", ("C06",), lambda tg: tg.crop(-1.0, 5.0, "truncated", False)),
+    ("erase-outside-keep", ("C07",), lambda tg: tg.eraseRegion(4.5, 5.5, False)),
+    ("erase-in-a-gap-keep", ("C07",), lambda tg: tg.eraseRegion(1.6, 1.9, False)),
+    ("space-at-the-end", ("C08",), lambda tg: tg.insertSpace(4.0, 0.5, "stretch")),
+    ("shift-by-zero", ("C09",), lambda tg: tg.editTimestamps(0.0, "silence")),
     ("erase-shrink", ("C07",), lambda tg: tg.eraseRegion(0.5, 1.0, True)),
     ("erase-keep", ("C07",), lambda tg: tg.eraseRegion(0.75, 2.25, False)),
     ("space-split", ("C08",), lambda tg: tg.insertSpace(0.75, 0.5, "split")),
@@ -239,10 +270,12 @@ def _tg_consumers(r):
                       ("tier-space", lambda t=t: t.insertSpace(1.0, 0.5, "stretch"))):
             obs[f"{nm}[{i}]"] = _norm(call(f))
     # then mutators on the result itself, in order
-    steps = [("rename", lambda: r.renameTier(r.tierNames[0], "zz")), ("add", lambda: r.addTier(PT("added", [(1.0, "x")], 0.0, 9.0), 1, "warning")),
+    def edit_all():
+        for t in r.tiers:
+            t.insertEntry(Interval(1.1, 1.3, "k") if t.tierType == constants.INTERVAL_TIER else Point(1.1, "k"), "replace", "silence")
+    steps = [("edit-tiers-in-place", edit_all),
+             ("rename", lambda: r.renameTier(r.tierNames[0], "zz")), ("add", lambda: r.addTier(PT("added", [(1.0, "x")], 0.0, 9.0), 1, "warning")),
              ("replace", lambda: r.replaceTier(r.tierNames[-1], IT("rep", [(0.0, 1.0, "y")], 0.0, 2.0), "warning")),
-             ("edit-tier-in-place", lambda: r.tiers[0].insertEntry(Interval(1.1, 1.3, "k") if r.tiers[0].tierType == constants.INTERVAL_TIER
-                                                                  else Point(1.1, "k"), "replace", "silence")),
              ("remove", lambda: r.removeTier(r.tierNames[0]))]
     for nm, f in steps:
         if not r.tierNames:
@@ -256,18 +289,33 @@ def _check_tg(case):
     si, pi = case
     name, props, f = TG_PRODUCERS[pi]
     res = {}
+    viols = []
+    # shifting, appending and merging may hand tier OBJECTS of the source on to the result (an entry-less tier is not copied): for
+    # those only the source's own names, order and span are compared afterwards, for the others its whole content
+    may_share = name.startswith(("shift", "append", "merge"))
     for which in ("result", "rebuilt"):
         tg = _tg_seed(si)
         st, r, _ = call(f, tg)
         if st == "exc":
             return 1, "raised", (si, name, "raised"), []
+        before = snap_tg(tg)
+        inplace = name.endswith("-in-place")
         if which == "rebuilt":
             try:
                 r = _rebuild_tg(snap_tg(r))
             except Exception:
                 return 1, "unconstructible", None, []
+        elif not inplace and r is tg:
+            viols.append(Viol("result-is-the-receiver", f"textgrid {name} on seed {si} returned the receiver itself, not a new textgrid"))
         res[which] = _tg_consumers(r)
-    viols = []
+        if which == "result" and not inplace and not viols:
+            after = snap_tg(tg)
+            if (after[:3] != before[:3]) if may_share else (after != before):
+                viols.append(Viol("result-entangled-with-source",
+                                  f"textgrid {name} on seed {si}: using and then editing the RETURNED textgrid (rename / add / replace / remove tiers"
+                                  f"{'' if may_share else ', edit a tier in place'}) changed the source: {before} -> {after}"))
+    if viols:
+        return 2, "!", None, viols
     a, b = res["result"], res["rebuilt"]
     for k in a:
         if a[k] != b.get(k):
